@@ -53,24 +53,10 @@ fn observe<A: BEDLike, B: BEDLike>(xs: &[A], ys: &[B]) -> String {
     w.join()
 }
 
-fn with_other<A: BEDLike>(xs: &[A], c: &C) -> String {
-    match c.ty2 % 3 {
-        0 => observe(xs, &c.xs.iter().map(|r| r.gr()).collect::<Vec<_>>()),
-        1 => observe(xs, &c.xs.iter().map(mk_bg).collect::<Vec<_>>()),
-        _ => observe(xs, &c.xs.iter().map(mk_bed::<6>).collect::<Vec<_>>()),
-    }
-}
-
 fn exec(t: &[String]) -> Option<String> {
     let c = dec(t)?;
-    Some(match c.ty % 6 {
-        0 => with_other(&c.xs.iter().map(|r| r.gr()).collect::<Vec<_>>(), &c),
-        1 => with_other(&c.xs.iter().map(mk_bed::<3>).collect::<Vec<_>>(), &c),
-        2 => with_other(&c.xs.iter().map(mk_bed::<6>).collect::<Vec<_>>(), &c),
-        3 => with_other(&c.xs.iter().map(mk_np).collect::<Vec<_>>(), &c),
-        4 => with_other(&c.xs.iter().map(mk_bp).collect::<Vec<_>>(), &c),
-        _ => with_other(&c.xs.iter().map(mk_bg).collect::<Vec<_>>(), &c),
-    })
+    // ty, ty2: flavours (type x strand/name/score variant) of `self` and of `other`
+    Some(crate::with_bedlikes!(c.ty, &c.xs, |xs| crate::with_bedlikes!(c.ty2, &c.xs, |ys| observe(&xs, &ys))))
 }
 
 fn shrink(t: &[String]) -> Vec<Vec<String>> {
@@ -97,7 +83,10 @@ fn gen(rng: &mut Rng, tier: Tier) -> Vec<Case> {
         let mut xs: Vec<Rec> = vec![];
         for _ in 0..k {
             let ch = if rng.chance(3, 4) { chroms[0] } else { chroms[1] };
-            let r = match rng.below(8) {
+            let r = match rng.below(10) {
+                // long records: lengths whose sum, or start + length, exceeds u64::MAX
+                8 => { let s = rng.below(4); Rec::new(ch, s, u64::MAX - rng.below(3)) }
+                9 => { let s = rng.below(4) + if rng.chance(1, 2) { 1 << 62 } else { 0 }; Rec::new(ch, s, (1u64 << 63) + rng.below(5) - 2) }
                 0 if !xs.is_empty() => xs[0].clone(),
                 1 if !xs.is_empty() => { let p = &xs[0]; Rec::new(ch, p.end, p.end.saturating_add(rng.below(4))) }        // adjacent
                 2 if !xs.is_empty() => { let p = &xs[0]; Rec::new(ch, p.end.saturating_sub(1), p.end.saturating_add(rng.below(4))) } // one-base overlap
@@ -108,7 +97,7 @@ fn gen(rng: &mut Rng, tier: Tier) -> Vec<Case> {
             };
             xs.push(r);
         }
-        out.push(Case::new(if base == 0 { "boundary" } else { "random" }, enc(&C { ty: rng.below(6), ty2: rng.below(3), xs })));
+        out.push(Case::new(if base == 0 { "boundary" } else { "random" }, enc(&C { ty: gen_flavour(rng), ty2: gen_flavour(rng), xs })));
     }
     out
 }
@@ -116,7 +105,7 @@ fn gen(rng: &mut Rng, tier: Tier) -> Vec<Case> {
 pub fn prop() -> PropDef {
     PropDef {
         id: "C13",
-        rule: "corpus, then pairs and triples of records (same/different chromosome incl. prefix names, disjoint, adjacent, one-base overlap, nested, identical, zero-length, end < start, coordinates at 0, around 2^50 and up to u64::MAX) for every record type as `self` (GenomicRange, BED<3>, BED<6>, NarrowPeak, BroadPeak, BedGraph<i64>) against GenomicRange / BedGraph / BED<6> as `other`; all ordered pairs observed. Non-trivial: >= 2 records of which two distinct ones share a chromosome and touch, overlap or nest. Distinct = distinct input token sequence.",
+        rule: "corpus, then pairs and triples of records (same/different chromosome incl. prefix names, disjoint, adjacent, one-base overlap, nested, identical, zero-length, end < start, coordinates at 0, around 2^50 and up to u64::MAX, records spanning almost the whole u64 range so that len+len and start+len exceed u64::MAX) for every record type and field variant as `self` and as `other` (GenomicRange, BED<3,4,5,6,12>, NarrowPeak, BroadPeak, BedGraph<i64/f64> x strand none/+/- x name/score present or absent); all ordered pairs observed. Non-trivial: >= 2 records of which two distinct ones share a chromosome and touch, overlap or nest. Distinct = distinct input token sequence.",
         observable: "BEDLike::{len,to_genomic_range,overlap,n_overlap,compare} and Ord for GenomicRange on all ordered pairs",
         gen, exec, shrink, child: None,
     }
